@@ -148,6 +148,21 @@ def compare(ast, sm, schema, text, overrides):
     if with_ov[0] == "internal":
         out.append(("internal:%s:%s" % (with_ov[1], with_ov[2]), "overrides %r" % (specs,)))
         return "internal", out
+    # the same through one loader object used twice: overrides must apply to every load
+    ZConfig = loadcheck.zc()
+    from ZConfig import cmdline
+    ld = cmdline.ExtendedConfigLoader(schema)
+    try:
+        for sp in specs:
+            ld.addOption(sp)
+    except ZConfig.ConfigurationError:
+        ld = None
+    if ld is not None:
+        for nth in (1, 2):
+            r = outcome(loadcheck.real_load_with(ld, text, MAIN))
+            if r[0] != with_ov[0] or (r[0] == "ok" and digest.first_diff(with_ov[1], r[1])):
+                out.append(("reused-loader-load-%d-differs" % nth, "%s vs %s ; overrides %r" % (r[0], with_ov[0], specs)))
+                break
     try:
         edited = edit(sm, text, overrides)
     except Unresolved as e:
